@@ -187,6 +187,33 @@ def run(chk):
     if not m:
         raise RuntimeError('boundscheck child failed:\n' + p.stdout[-2000:] + p.stderr[-3000:])
     bc = json.loads(m[0][9:])
+    # ---- fractional floating-point data (dyadic, so every partial sum is exact): float -> int / float32 / float64 outputs and int data with a float offset;
+    #      the output holds the selected partial sums (truncated on an integer output, as numpy would store them) and the RETURNED total is the untruncated sum
+    nfrac = 0
+    frng = np.random.default_rng(chk.seed + 13)
+    for Nf in range(0, 7):
+        for ini in (False, True):
+            for fin in (False, True):
+                Lf = Nf - 1 + ini + fin
+                if Lf < 0:
+                    continue
+                for adt, odt, offf in ((np.float64, np.int64, 3), (np.float64, np.float32, 0.5), (np.float32, np.float64, 0.0), (np.int64, np.float64, 0.25), (np.float64, np.int32, 0)):
+                    af = (frng.integers(1, 40, Nf) * 0.125).astype(adt) if adt != np.int64 else frng.integers(1, 9, Nf).astype(adt)
+                    outf = np.full(Lf, 77, dtype=odt)
+                    try:
+                        rf = cumsum(af, outf, initial=ini, final=fin, offset=offf)
+                    except Exception as e:  # noqa
+                        chk.violation('frac-raises', f'cumsum({np.dtype(adt).name} -> {np.dtype(odt).name}, N={Nf}, initial={ini}, final={fin}): {type(e).__name__}: {e}', dict(N=Nf))
+                        continue
+                    nfrac += 1
+                    full = float(offf) + np.concatenate([[0.0], np.cumsum(af.astype(np.float64))])          # prefix sums incl. the leading offset and the total
+                    sel = full[(0 if ini else 1):(len(full) if fin else len(full) - 1)] if Nf else (full[:1] if (ini and fin) else full[:0])
+                    want = np.trunc(sel).astype(odt) if np.issubdtype(odt, np.integer) else sel.astype(odt)
+                    if not np.array_equal(outf, want):
+                        chk.violation(f'frac-output-{np.dtype(adt).name}-{np.dtype(odt).name}', f'cumsum({af.tolist()} {np.dtype(adt).name} -> {np.dtype(odt).name}, initial={ini}, final={fin}, offset={offf}): output {outf.tolist()} != {want.tolist()}', dict(N=Nf))
+                    if float(rf) != float(full[-1]):
+                        chk.violation(f'frac-total-{np.dtype(adt).name}-{np.dtype(odt).name}', f'cumsum({af.tolist()} {np.dtype(adt).name} -> {np.dtype(odt).name}, initial={ini}, final={fin}, offset={offf}): returned total {rf!r} != offset + sum = {float(full[-1])!r}', dict(N=Nf))
+    chk.part('fractional_floats', runs=nfrac)
     chk.part('boundscheck', runs=bc['n'], faults=bc['nbad'])
     for b in bc['bad']:
         chk.violation(key_of(b['case'], b['what']), f'NUMBA_BOUNDSCHECK=1 {b["pair"]}: {b["what"]}', b)
